@@ -373,3 +373,27 @@ def run(prog: Program, chk: Check):
     Cc.decide(okr, fkey(wf, "returns-only-ack"), where(wf), "every return is dominated by `msg.header.msg_type == MT_ACKNOWLEDGE`",
               "_wait_for_acknowledgement can return a frame that is not an ACKNOWLEDGE")
     chk.units.update({"dispatch_types": sorted(d.types), "dispatch_subject": d.subject})
+
+    # ---- C19-R the request is read whole, the copies go to every logger ------------------------------------------------------------------
+    Rq = chk.rule("C19-R", "read_message receives header and payload with MSG_WAITALL; logger_modules registers the module itself", 3,
+                  "a control frame whose payload arrives in two TCP segments is taken for a dead peer (no acknowledgement, no logger copy); a logger table keyed by a client-chosen id drops the copy for one of two loggers that share it")
+    rdm = prog.func(MGR, "MessageManager.read_message")
+    recvs = [c for c in calls_in(rdm.node) if is_method_call(c, ("recv_into", "recv"))]
+    if len(recvs) < 2:
+        raise AnalysisError(f"anchor vanished: header and payload receives in read_message (found {len(recvs)})")
+    for c in recvs:
+        flags = [norm(a) for a in c.args[1:]] + [norm(k.value) for k in c.keywords]
+        Rq.decide(any("MSG_WAITALL" in t for t in flags), fkey(rdm, f"waitall:{norm(c)[:50]}"), where(rdm, c), "the receive waits for the whole part (MSG_WAITALL)",
+                  f"read_message: `{norm(c)[:70]}` can return short when the bytes arrive in pieces; the short count is then treated as a dead peer: the request is never acknowledged")
+    regs = [n for f_ in mm.methods.values() for n in walk_local(f_.node)
+            if (isinstance(n, ast.Call) and isinstance(n.func, ast.Attribute) and path_of(n.func.value) == "self.logger_modules" and n.func.attr in ("add", "append", "setdefault", "update"))
+            or (isinstance(n, ast.Assign) and any(isinstance(t, ast.Subscript) and path_of(t.value) == "self.logger_modules" for t in n.targets))]
+    if not regs:
+        raise AnalysisError("anchor vanished: registration into self.logger_modules")
+    for n in regs:
+        by_identity = isinstance(n, ast.Call) and n.func.attr in ("add", "append") and len(n.args) == 1 and isinstance(n.args[0], ast.Name)
+        if isinstance(n, ast.Assign):
+            key = next(t.slice for t in n.targets if isinstance(t, ast.Subscript) and path_of(t.value) == "self.logger_modules")
+            by_identity = isinstance(key, ast.Name) or norm(key).endswith(".conn")
+        Rq.decide(by_identity, f"{MGR}|logger-registration:{norm(n)[:50]}", f"{prog.module(MGR).rel}:{n.lineno}", "loggers are registered by identity (the module / its connection)",
+                  f"`{norm(n)[:70]}` keys the logger table by a value the client chooses: two loggers sharing it (allow_multiple) overwrite each other and one stops receiving acknowledgement copies")
